@@ -506,11 +506,17 @@ def _run_cell(cell):
                       stubs=stubs, name=cell.name, max_violations=cell.max_violations)
         out["cell"] = dict(module=cell.module, factory=cell.factory, params=enc(cell.params))
         if cell.twin:
-            tw = explore(fn, types, budget_s=min(20.0, cell.budget_s), per_path_s=cell.per_path_s,
-                         stubs=stubs, name=cell.name + "#twin", max_violations=1,
-                         native=False, twin=True, max_paths=400)
-            out["twin_refuted"] = bool(tw["violations"])
-            out["twin_paths"] = tw["paths"]
+            # anti-vacuity: the end of the harness must be reachable.  A leaf that ran to the end (and whose witness
+            # was replayed natively) already shows that; the reachability twin is only needed when there is none.
+            if out.get("witnesses", 0) > 0 or out.get("violations"):
+                out["twin_refuted"] = True
+                out["twin_paths"] = 0
+            else:
+                tw = explore(fn, types, budget_s=min(60.0, cell.budget_s), per_path_s=cell.per_path_s,
+                             stubs=stubs, name=cell.name + "#twin", max_violations=1,
+                             native=False, twin=True, max_paths=400)
+                out["twin_refuted"] = bool(tw["violations"])
+                out["twin_paths"] = tw["paths"]
         return out
     except BaseException as e:  # noqa
         return dict(name=cell.name, fatal=type(e).__name__ + ": " + str(e)[:500],
